@@ -6,6 +6,6 @@ PROP = dict(
          'the Lean model; distinct = by hash of (op, observation); non-trivial = an allocation that returned a frame or a free',
     trusted=['reserveRegionFn/mapFn are scripted (vmm is covered by C04/C07)', 'multiboot block built by the harness (decoder covered by C10)'],
     assumptions=['memory map sorted, non-overlapping, addr+len < 2^64, fewer than 2^32 frames', 'kernel image page-aligned start, inside one available region'],
-    level_text='Lean theorems: totals equal the number of free frames in every invariant state (stats), exactly total-reserved allocations succeed then OOM (drain_count), bad frees rejected without change, good frees accepted (bad_free_rejected, good_free_accepted), no index panic (ops_never_crash). Init never crashing / establishing the invariant is decided by the differential run + oracle on generated maps (boundary sizes 1,63,64,65,128,129).',
-    level_note='Trusted: Lean kernel (+ 3 standard axioms), statements, harness; init_total is correspondence-only at this commit (named partial).',
+    level_text="Lean theorems: init ends in ok or out-of-memory, never a crash, and on ok the free set is exactly the usable frames (init_total_and_exact, via init_spec for every sorted map and kernel placement); totals equal the number of free frames in every reachable state (stats), exactly total-reserved allocations succeed then OOM (drain_count), bad frees rejected without change, good frees accepted (bad_free_rejected, good_free_accepted), no index panic (ops_never_crash). Differential run with boundary region sizes 1,63,64,65,128,129 and the oracle on the implementation's observations.",
+    level_note='Trusted: Lean kernel (+ 3 standard axioms), statements, harness; Nat arithmetic under addr+len < 2^64 and < 2^32 frames; the theorem covers the vmm seams succeeding (a failing seam returns that error: exercised by the harness only).',
 )
